@@ -3,7 +3,7 @@
 # Confirms the seeded change (demo fails with it / passes without it) in a scratch worktree of
 # /repo HEAD and runs the given checks against the changed tree. Prints a summary.
 SD=$1; NAME=$2; shift 2; CHECKS="$@"
-WT=/tmp/seedrun
+WT=${SEEDWT:-/tmp/seedrun}
 export GOFLAGS=-mod=mod GOPROXY=off GOSUMDB=off GOTOOLCHAIN=local
 GO=/root/go/pkg/mod/golang.org/toolchain@v0.0.1-go1.25.13.linux-amd64/bin/go
 git -C /repo worktree remove --force $WT >/dev/null 2>&1
@@ -22,9 +22,9 @@ rm -f $WT/$DP
 git apply $SD/patch.diff
 echo "seed $NAME: demo with patch rc=$RC_WITH (want !=0), without rc=$RC_WITHOUT (want 0)"
 for id in $CHECKS; do
-  VERIF_REPO=$WT VERIF_BUILD=/verif/build/seed-$NAME /verif/check $id --tier ${TIER:-quick} > /tmp/seedrun-$NAME.$id.log 2>&1
+  VERIF_REPO=$WT VERIF_BUILD=/verif/build/seed-$(basename $WT) /verif/check $id --tier ${TIER:-quick} > /tmp/seedrun-$NAME.$id.log 2>&1
   RC=$?
   echo "  check $id rc=$RC $(grep -c '^VIOLATION' /tmp/seedrun-$NAME.$id.log) violation lines | $(grep 'first violation' /tmp/seedrun-$NAME.$id.log | head -1 | cut -c1-150)"
 done
 cd /; git -C /repo worktree remove --force $WT
-rm -rf /verif/build/seed-$NAME
+rm -rf /verif/build/seed-$(basename $WT)
